@@ -61,18 +61,18 @@ PENDING = {}
 
 # what seeded-change waves 5-7 added to the worlds (DESIGN 14.2), appended to the level text
 ADDENDA = {
- "C01": "; login names that merely resemble a registered one, refusing handlers of every error kind, CA clock skew, one RA process serving several requests",
- "C02": "; old / boundary client versions, odd host spellings, the key_label option, handler objects reused for a second request",
- "C03": "; CA clock skew and staggered validity windows, the key_label option, certificates the RA provisioned tracked by blob across runs",
- "C04": "; refusing handlers of every error kind, failing agent keys at every placement",
- "C06": "; signature length alterations, DER-consistent DigestInfo values with extra octets, device keys with public exponents 3 / 17 / 257 and 5120 / 8192-bit moduli, a look-alike CA, a genuine attestation preceding the judged one on the same Attestor",
- "C07": "; security-key certificates, faults of the underlying agent on the purge path (a listing that succeeds under a fault discloses nothing), another shim instance before the judged history",
- "C08": "; passphrase variants (line terminators, NUL, case), buffers overwritten after the call, out-of-band (un)locking of the underlying agent while the shim is locked",
- "C09": "; KeyID documents in other JSON spellings and above 1 KiB, security-key certificates",
- "C10": "; ordering comparators, slow but honest replies on the simulated clock, buffers overwritten after calls, and the rule that a fault which turns a successful answer into a failure cannot end in a successful call",
+ "C01": "; login names that merely resemble a registered one, refusing handlers of every error kind, CA clock skew, one RA process serving several requests; two requests served by one process at the same time (also for the same login name with and without the key), a key registered later under the other file spelling, file-system trouble in the key directory (dangling links, link loops)",
+ "C02": "; old / boundary client versions, odd host spellings, the key_label option, handler objects reused for a second request; two requests of different login names served by one process at the same time, a validity configured as zero",
+ "C03": "; CA clock skew and staggered validity windows, the key_label option, certificates the RA provisioned tracked by blob across runs; a validity configured as zero, the lifetime compared with the validity the RA asked the CA for",
+ "C04": "; refusing handlers of every error kind, failing agent keys at every placement; a refusal that is repeated whenever the same request comes again, panic values of several dynamic types",
+ "C06": "; signature length alterations, DER-consistent DigestInfo values with extra octets, device keys with public exponents 3 / 17 / 257 and 5120 / 8192-bit moduli, a look-alike CA, a genuine attestation preceding the judged one on the same Attestor; well-formed encoded messages that are shorter than the modulus",
+ "C07": "; security-key certificates, faults of the underlying agent on the purge path (a listing that succeeds under a fault discloses nothing), another shim instance before the judged history; another client of the underlying agent adding identities while a call of the shim is in flight, an underlying agent that refuses every removal, no signature with a certificate outside its validity whatever the agent refused meanwhile",
+ "C08": "; passphrase variants (line terminators, NUL, case), buffers overwritten after the call, out-of-band (un)locking of the underlying agent while the shim is locked; a raw relay answered late by the underlying agent followed by lock / unlock with a wrong and the right passphrase",
+ "C09": "; KeyID documents in other JSON spellings and above 1 KiB, security-key certificates; another client adding YSSHCA certificates to the underlying agent between the two listings of one Signers call",
+ "C10": "; ordering comparators, slow but honest replies on the simulated clock, buffers overwritten after calls, and the rule that a fault which turns a successful answer into a failure cannot end in a successful call; an accepted hardware certificate must be able to sign right away (also when the underlying agent lists the key only inside another certificate), replies of raw relays kept by the caller and compared again at the end of the history, another client changing the underlying agent during a call",
  "C11": "; goroutines, callback timers, WaitGroups and channel operations (send, receive, select, range) of the code under test are scheduling seams too - a deadlock in a channel operation is a verdict -, read deadlines armed by the shim may expire, failure replies of the underlying agent, larger per-caller payloads, a scheduling point before a caller looks at its reply",
- "C12": "; complete frames of 64 KiB .. 1 MiB (thorough: 16 MiB), a transport that reports the end of the stream with the last bytes",
- "C13": "; smartcard add / remove, signing through client signers with the negotiated RSA algorithm, kept key objects compared again at the end of the session, a PIV tool whose output changes between calls",
+ "C12": "; complete frames of 64 KiB .. 1 MiB (thorough: 16 MiB), a transport that reports the end of the stream with the last bytes; frames whose payload is exactly 16 MiB and a few octets less, a served agent that answers late (late actions are observed before the bubble's root returns), a byte stream that honours read / write deadlines on the simulated clock",
+ "C13": "; smartcard add / remove, signing through client signers with the negotiated RSA algorithm, kept key objects compared again at the end of the session, a PIV tool whose output changes between calls; two clients on two connections asking for the certificate and the attestation of one slot at the same time, sessions with a served agent that takes 2 s .. 1 h over one request",
  "C17": "; endpoints that heal between Sign calls on one Signer, CA signature formats per certificate, unusual request shapes, a parent context that is already over",
  "C18": "; chained client certificate files, a sibling TLS client configuration (built and used before the signer) with another CA bundle, impostors issued by that CA, by the client certificate's CA, or named as the first endpoint",
  "C20": "; a sibling agent in the same process, real lock / unlock requests, goroutines, timers and channel operations of the code under test under the scheduler's control",
